@@ -99,6 +99,8 @@ def event? (tok : String) : Option (List SessStep × List ClientSyntaxSpec.SrvEv
   | ["e"] => some ([.enabled [.utf8Accept]], [.enabledResp [.utf8Accept]])
   | [k, l] =>
     let cl := caps? l
+    -- a further ENABLE answered `* ENABLED <names>`: handleEnabled adds them / the server turned them on
+    if k = "E" then some ([.enabled cl], [.enabledResp cl]) else
     if k = "g" || k = "c" || k = "l" || k = "L" || k = "h" then some ([.setCaps cl], [.advertised cl])
     -- UNAUTHENTICATE answered `OK [CAPABILITY …]`: setCaps from the code, then completeCommand
     else if k = "u" then some ([.setCaps cl, .unauthDone], [.advertised cl, .unauthenticated])
